@@ -49,7 +49,7 @@ mod verif_xc_wire_roundtrip {
     RepresentationIdentifier,
   };
 
-  // RTPS 2.5 table 9.? submessage ids
+  // RTPS 2.5 section 9.4.5.1.1 submessage ids
   const K_ACKNACK: u8 = 0x06;
   const K_HEARTBEAT: u8 = 0x07;
   const K_GAP: u8 = 0x08;
